@@ -65,9 +65,6 @@ def rules_store_pre(eng, st, R):
     dr = z3.Select(st.H('default_rule'), V.ref(R))
     return [('rules-is-a-dict-object', z3.And(V.is_obj(R), eng.isinst_ref(V.ref(R), 'dict'),
                                              V.is_dict(z3.Select(st.H('$val'), V.ref(R))))),
-            ('every-stored-rule-is-a-check',
-             qforall([k], z3.Implies(z3.Select(m, k) != ABSENT, eng.isinst(z3.Select(m, k), 'BaseCheck')),
-                     patterns=[z3.Select(m, k)])),
             ('default-rule-is-None-a-string-or-a-check',
              z3.Implies(eng.isinst(R, 'Rules'),
                         z3.Or(dr == NONE, V.is_str(dr), eng.isinst(dr, 'BaseCheck'))))]
